@@ -47,3 +47,6 @@ META = {
                "oracles, exhaustive ternary blocks + random cases",
   "soft_s": {"quick": 25, "thorough": 240},
 }
+
+# EXTENSION families added after the seeded-change rounds
+META["rule"] += (" Added after the seeded-change rounds: " '(c10_x) blocks of 129..400 small integers: acorr / lag_matrix exact, kautocor normal equations; blocks rescaled by 2^-34..10^6' ".")
